@@ -44,7 +44,17 @@ func (g *Gen) assumeClause(cl *Clause, env *Env, reach string) {
 	}
 	s := g.mustEval(cl, env)
 	g.assuming = ""
-	g.addFactAt(implies(reach, s), g.curBlock)
+	if parts := conjuncts(cl.E); len(parts) > 1 && hasQuant(s) {
+		// a clause that mixes plain and quantified conjuncts: state the conjuncts one by one, so that the
+		// quantifier-free ones survive in the reduced (quantifier-free) queries
+		for _, pe := range parts {
+			pc := *cl
+			pc.E = pe
+			g.addFactAt(implies(reach, g.mustEval(&pc, env)), g.curBlock)
+		}
+	} else {
+		g.addFactAt(implies(reach, s), g.curBlock)
+	}
 	henv := *env
 	henv.st = env.st.clone()
 	g.registerHyps(cl.E, nil, &henv, reach)
@@ -1012,4 +1022,12 @@ func sexpEnd(s string, i int) int {
 		}
 	}
 	return -1
+}
+
+// conjuncts flattens a tree of && into its operands.
+func conjuncts(e Expr) []Expr {
+	if b, ok := e.(*EBinary); ok && b.Op == "&&" {
+		return append(conjuncts(b.X), conjuncts(b.Y)...)
+	}
+	return []Expr{e}
 }
